@@ -218,6 +218,60 @@ def run(ctx):
                    witness=f'select * from a {jt.lower()} b on a.x = b.x')
     # set operations: see the interpreted table below (two operands and chains) --------------------------------------------------------------
     clause_table(ctx, cls, ps)
+    # every occurrence of a table in FROM is its own SQLAlchemy object: SQLAlchemy correlates sub-queries by object identity, so one shared table object makes an
+    # inner FROM item disappear (`exists (select 1 from t, s ..)` inside a query FROM t loses its own t)
+    tt = function_named(cls, 'to_table')
+    ctx.need(tt is not None, 'SqlalchemyRender.to_table not found')
+    from ..saelem import Elem
+    from ..interp import Interp, Obj, Raised, Env
+    init = function_named(cls, '__init__')
+    containers = {}
+    for n_ in (ast.walk(init) if init is not None else []):
+        if isinstance(n_, ast.Assign) and len(n_.targets) == 1 and isinstance(n_.targets[0], ast.Attribute) and norm(n_.targets[0].value) == 'self' \
+                and ((isinstance(n_.value, (ast.Dict, ast.List, ast.Set)) and not getattr(n_.value, 'keys', getattr(n_.value, 'elts', None)))
+                     or (isinstance(n_.value, ast.Call) and dotted(n_.value.func) in ('dict', 'list', 'set') and not n_.value.args)):
+            containers[n_.targets[0].attr] = {'Dict': dict, 'List': list, 'Set': set}.get(type(n_.value).__name__, None) or {'dict': dict, 'list': list, 'set': set}[dotted(n_.value.func)]
+    for with_alias in (False, True):
+        self_ = Obj('SqlalchemyRender', dialect=Obj('Dialect', name='postgresql'), **{k: v() for k, v in containers.items()})
+        made = []
+        stubs = {'sa.table': lambda it, *a, **k: (made.append(Elem('table', a)), made[-1])[1], 'aliased': lambda it, t_, **k: Elem('aliased', None, [t_]),
+                 'self.get_alias': lambda it, a: a, 'self.get_table_name': lambda it, n_: ('s', n_.parts[-1])}
+        outs = []
+        for _ in range(2):
+            node_ = Obj('Identifier', parts=['s', 't'], alias=Obj('Identifier', parts=['a'], alias=None) if with_alias else None)
+            it = Interp.for_file(ctx.src, FILE, {'Identifier': set(), 'Select': set(), 'Union': set(), 'Intersect': set(), 'Except': set()}, stubs)
+            try:
+                outs.append(it.call_function(tt, [self_, node_], {}, Env()))
+            except Raised as r:
+                outs.append(f'<{r.exc_name}>')
+        base = [o.args[0] if isinstance(o, Elem) and o.kind == 'aliased' else o for o in outs]
+        ok = len(made) == 2 and all(isinstance(b, Elem) for b in base) and base[0] is not base[1]
+        ctx.ob('C06.from-item-fresh', f'to_table:{"aliased" if with_alias else "plain"}', ok,
+               f'two occurrences of the table s.t are translated to {"the same" if len(base) == 2 and base[0] is base[1] else "these"} SQLAlchemy object(s) {outs}: every '
+               f'occurrence must be a new sa.table(...), or SQLAlchemy treats the inner occurrence as a correlation to the outer one and drops it from the inner FROM',
+               file=FILE, line=tt.lineno, witness='select * from t where exists (select 1 from t, s where s.a = t.a)')
+    # IS / IS NOT with NULL, TRUE, FALSE: SQLAlchemy computes NOT (x IS y) by swapping IS <-> IS NOT, which it can do only when y is the keyword element
+    # (sa.null() / sa.true() / sa.false() or Python None); for a bound value the "negation" of `x IS :p` is `x IS :p` again (library behaviour, reference knowledge
+    # like the join table), so NOT (a IS NULL) would select the rows where a IS NULL
+    for op_, v_ in itertools.product(('is', 'is not', 'IS', 'IS NOT'), (None, True, False)):
+        node_ = Obj('BinaryOperation', op=op_, args=[Obj('Identifier', parts=['a'], alias=None, parentheses=False), Obj('Constant', value=v_, alias=None, parentheses=False)],
+                    alias=None, parentheses=False)
+        from ..saelem import sa_stubs, elem_getattr
+        stubs = sa_stubs()
+        stubs.update({'self.get_alias': lambda it, x: x, 'self.to_column': lambda it, parts: Elem('column', tuple(parts))})
+        it = Interp.for_file(ctx.src, FILE, {'BinaryOperation': {'Operation'}, 'Identifier': set(), 'Constant': set()}, stubs)
+        it.stubs['getattr'] = elem_getattr
+        try:
+            res = it.call_function(te, [Obj('SqlalchemyRender', dialect=Obj('Dialect', name='postgresql')), node_], {}, Env())
+            operand = res.args[1] if isinstance(res, Elem) and len(res.args) == 2 else res
+            kind_ = operand.kind if isinstance(operand, Elem) else ('None' if operand is None else repr(operand))
+        except Raised as r:
+            kind_ = f'<{r.exc_name}>'
+        want_ = {None: ('null', 'None'), True: ('true',), False: ('false',)}[v_]
+        ctx.ob('C06.is-operand', f'a {op_} {v_!r}', kind_ in want_ or kind_ == '<NotImplementedError>',
+               f'`a {op_} {v_}` is built with the operand {kind_}: it must be the keyword element {want_[0]}(), not a bound value - SQLAlchemy renders NOT (a {op_} ..) by '
+               f'swapping IS and IS NOT, and for a bound operand the swap is the identity: `NOT (a IS NULL)` is rendered as `a IS NULL`', file=FILE, line=te.lineno,
+               witness='select * from t where not (a is null)')
     # comparison operators keep their meaning only if both operands are ordinary elements: C07's gateway table (every constant, NULL included, is one
     # sa.literal) is re-run; a NULL element (sa.null()) makes SQLAlchemy write `= NULL` / `<> NULL` as IS [NOT] NULL, which selects different rows
     from .. import core
